@@ -906,9 +906,76 @@ func (it *stringIter) next(p *Path) Tuple {
 		}
 	}
 	idx := it.i
-	b := strAt(it.s, idx)
-	it.i++
-	return Tuple{true, int64(idx), p.runeOfByteKeepConcrete(b)}
+	r, size := p.decodeRuneAt(it.s, idx)
+	it.i += size
+	return Tuple{true, int64(idx), r}
+}
+
+// byteIn: lo <= b <= hi for a (possibly symbolic) byte, as a path decision.
+func (p *Path) byteIn(b Value, lo, hi int64) bool {
+	switch x := b.(type) {
+	case int64:
+		return x >= lo && x <= hi
+	case *Term:
+		tt := p.tt()
+		return p.Decide(tt.And(tt.Cmp(OpUle, tt.Const(BV(8), uint64(lo)), x), tt.Cmp(OpUle, x, tt.Const(BV(8), uint64(hi)))))
+	}
+	panic("byteIn")
+}
+
+// decodeRuneAt follows unicode/utf8.DecodeRuneInString on a string with symbolic
+// bytes: the shape of the encoding is decided on the path, the rune is a term.
+func (p *Path) decodeRuneAt(s Value, i int) (Value, int) {
+	n := strLen(s)
+	b0 := strAt(s, i)
+	if p.byteIn(b0, 0, 0x7F) {
+		if c, ok := b0.(int64); ok {
+			return c, 1
+		}
+		return p.tt().Zext(b0.(*Term), 32), 1
+	}
+	const runeError = int64(0xFFFD)
+	cont := func(j int, lo, hi int64) bool { return j < n && p.byteIn(strAt(s, j), lo, hi) }
+	tt := p.tt()
+	bits := func(b Value, mask uint64, shift uint) *Term {
+		t := tt.Zext(p.byteTerm(b), 32)
+		t = tt.Bin(OpBAnd, t, tt.Const(BV(32), mask))
+		return tt.Bin(OpShl, t, tt.Const(BV(32), uint64(shift)))
+	}
+	mk := func(parts ...*Term) Value {
+		r := parts[0]
+		for _, q := range parts[1:] {
+			r = tt.Bin(OpBOr, r, q)
+		}
+		return termOrInt(r, intInfo{32, true})
+	}
+	switch {
+	case p.byteIn(b0, 0xC2, 0xDF):
+		if cont(i+1, 0x80, 0xBF) {
+			return mk(bits(b0, 0x1F, 6), bits(strAt(s, i+1), 0x3F, 0)), 2
+		}
+	case p.byteIn(b0, 0xE0, 0xEF):
+		lo, hi := int64(0x80), int64(0xBF)
+		if p.byteIn(b0, 0xE0, 0xE0) {
+			lo = 0xA0
+		} else if p.byteIn(b0, 0xED, 0xED) {
+			hi = 0x9F
+		}
+		if cont(i+1, lo, hi) && cont(i+2, 0x80, 0xBF) {
+			return mk(bits(b0, 0x0F, 12), bits(strAt(s, i+1), 0x3F, 6), bits(strAt(s, i+2), 0x3F, 0)), 3
+		}
+	case p.byteIn(b0, 0xF0, 0xF4):
+		lo, hi := int64(0x80), int64(0xBF)
+		if p.byteIn(b0, 0xF0, 0xF0) {
+			lo = 0x90
+		} else if p.byteIn(b0, 0xF4, 0xF4) {
+			hi = 0x8F
+		}
+		if cont(i+1, lo, hi) && cont(i+2, 0x80, 0xBF) && cont(i+3, 0x80, 0xBF) {
+			return mk(bits(b0, 0x07, 18), bits(strAt(s, i+1), 0x3F, 12), bits(strAt(s, i+2), 0x3F, 6), bits(strAt(s, i+3), 0x3F, 0)), 4
+		}
+	}
+	return runeError, 1
 }
 
 func (p *Path) runeOfByteKeepConcrete(b Value) Value {
